@@ -147,6 +147,13 @@ class Executor:
                     continue
                 p0 = strip_ty(f.params[0][1])
                 p0b = p0[5:] if p0.startswith("&mut ") else p0[1:] if p0.startswith("&") else p0
+                if m and m.group(3) == "from":
+                    # From::from has no receiver: the impl is identified by (Self = return type, T = parameter type)
+                    tm = re.match(r"^From<(.*)>$", trait.strip())
+                    if strip_ty(f.ret) != self_ty or (tm and strip_ty(f.params[0][1]) != strip_ty(tm.group(1))):
+                        continue
+                    good.append(f)
+                    continue
                 if strip_ty(p0b) != self_ty and strip_ty(p0) != self_ty:
                     # associated fn without self (e.g. From::from): match on impl + return type instead
                     if not (m and m.group(3) in ("from", "default") and strip_ty(f.ret) == self_ty):
@@ -757,7 +764,8 @@ class Executor:
                 en = parts[-2]
                 order = [f for f, _ in self.defs.variant_fields(en, bn)]
                 return Enum(dest_ty or en, bn, Struct(en + "::" + bn, {order.index(n): v for n, v in vals.items()}))
-            raise Unsupported("struct aggregate " + path)
+            # struct-like value of an external crate (e.g. base32::Alphabet::RFC4648 { padding }): an opaque record
+            return Struct(path, {i: v for i, (n_, v) in enumerate(vals.items())})
         if k == "ctor":
             path = rv[1]
             head = strip_generics(path)
